@@ -39,6 +39,7 @@ def gen(r):
         observers.append({"type": typ, "script": script, "ack_delay": r.choice([0.0, 0.0, 0.3, 2.5]), "special": special, "special_at": r.uniform(0.5, 12.0), "t_reg": r.choice([0.0, 0.0, 0.2, 3.0])})
     triggers = []
     t = 1.0
+    render_delay = r.choice([0.0, 0.0, 0.0, 0.004, 0.02, 0.3])
     prev_special = False
     for _ in range(r.randrange(2, 11)):
         gap = r.choice([0.0, 0.0005, 0.0015, 0.01, 1.0, 5.0])
@@ -47,13 +48,17 @@ def gen(r):
         t += gap
         kind = "update"
         x = r.random()
-        if x < 0.06:
+        # with a rendering that takes time a later trigger can overwrite an unsuccessful / last one before it is
+        # processed (coalescing is allowed), so those are only scheduled with instantaneous renderings
+        if x < 0.06 and not render_delay:
             kind = "unsuccessful"
-        elif x < 0.12:
+        elif x < 0.12 and not render_delay:
             kind = "last"
         triggers.append({"t": t, "kind": kind})
         prev_special = kind != "update"
-    return {"observers": observers, "triggers": triggers, "shutdown_at": t + r.choice([20.0, 150.0])}
+    # a rendering that takes time (the handler reads its state, then awaits something): state changes can land
+    # while a notification is being rendered and must still lead to a notification carrying them
+    return {"observers": observers, "triggers": triggers, "shutdown_at": t + r.choice([20.0, 150.0]), "render_delay": render_delay}
 
 
 def run_history(h, seed, rep, case):
@@ -103,8 +108,11 @@ def run_history(h, seed, rep, case):
 
             async def render_get(self, request):
                 rid = self.rids.get(id(request), 0)
-                rlog.append({"ev": "render", "rid": rid, "ver": self.version, "t": loop.time(), "seq": len(net.log)})
-                return aiocoap.Message(payload=b"rid=%d;ver=%d" % (rid, self.version))
+                ver = self.version  # the state is read first ...
+                rlog.append({"ev": "render", "rid": rid, "ver": ver, "t": loop.time(), "seq": len(net.log)})
+                if h.get("render_delay"):
+                    await asyncio.sleep(h["render_delay"])  # ... then the handler takes its time
+                return aiocoap.Message(payload=b"rid=%d;ver=%d" % (rid, ver))
 
         res_ = Obs()
         site = R.Site()
